@@ -423,6 +423,14 @@ func (e *Exec) enterLoop(li *loopInfo) {
 			wset[k] = true
 		}
 	}
+	if wset["*ALL"] {
+		delete(wset, "*ALL")
+		for k := range e.compSort {
+			if strings.HasPrefix(k, "H|") || strings.HasPrefix(k, "E|") || strings.HasPrefix(k, "M|") || strings.HasPrefix(k, "G|") {
+				wset[k] = true
+			}
+		}
+	}
 	var keys []string
 	for k := range wset {
 		keys = append(keys, k)
